@@ -136,9 +136,9 @@ Proof. induction a as [|[s items p|us|] a IH]; cbn [app n_adv]; rewrite ?IH; lia
 Lemma n_uns_app u a b : n_uns u (a ++ b) = (n_uns u a + n_uns u b)%nat.
 Proof. induction a as [|[s items p|us|] a IH]; cbn [app n_uns]; rewrite ?IH; lia. Qed.
 Lemma n_collected_app u a b : n_collected u (a ++ b) = (n_collected u a + n_collected u b)%nat.
-Proof. induction a as [|[[] items p|us|] a IH]; cbn [app n_collected]; rewrite ?IH; lia. Qed.
+Proof. induction a as [|[[] items []|us|] a IH]; cbn [app n_collected]; rewrite ?IH; lia. Qed.
 Lemma n_canceled_app u a b : n_canceled u (a ++ b) = (n_canceled u a + n_canceled u b)%nat.
-Proof. induction a as [|[[] items p|us|] a IH]; cbn [app n_canceled]; rewrite ?IH; lia. Qed.
+Proof. induction a as [|[[] items []|us|] a IH]; cbn [app n_canceled]; rewrite ?IH; lia. Qed.
 
 Lemma emissions_snoc tr th es ms : emissions (tr ++ [(th, es, ms)]) = emissions tr ++ ms.
 Proof. unfold emissions. rewrite map_app, concat_app. cbn. rewrite app_nil_r. reflexivity. Qed.
